@@ -219,6 +219,9 @@ func init() {
 		"fmt.Println":  func(fr *frame, a []value) value { return tuple{0, iface{}} },
 		"fmt.Printf":   func(fr *frame, a []value) value { return tuple{0, iface{}} },
 
+		"(runtime.errorString).Error": func(fr *frame, a []value) value { return a[0] },
+		"(*runtime.TypeAssertionError).Error": func(fr *frame, a []value) value { return "interface conversion error" },
+
 		// ---- sort ----
 		"sort.Strings": func(fr *frame, a []value) value {
 			x := a[0].([]value)
